@@ -53,6 +53,11 @@ void h_run(Case &c) {
   hwloc_topology_t t; hwloc_topology_init(&t);
   if (apply_spec_and_load(c, t, sp) < 0) { hwloc_topology_destroy(t); c.discard(); }
   require_wf(c, t, "after load");
+  // one start in three: Misc objects below an object AND below its parent, so that level merges caused by later restricts have
+  // special children to combine on both sides (seeded change C02: the merged parent's misc_arity)
+  if (so.misc_keep && d.chance(1, 3)) { int k = d.range(1, 3); auto objs = all_objs(t); std::vector<hwloc_obj_t> cand; for (auto o : objs) if (o->cpuset && o->parent && !hwloc_obj_type_is_memory(o->type)) cand.push_back(o);
+    for (int i = 0; i < k && !cand.empty(); i++) { hwloc_obj_t o = cand[d.raw() % cand.size()]; hwloc_obj_t m1 = hwloc_topology_insert_misc_object(t, o, "below-child"), m2 = hwloc_topology_insert_misc_object(t, o->parent, "below-parent"); CHECK(c, m1 && m2, "misc_insert", "Misc insertion failed although the Misc filter keeps them"); c.descf("\n | start: Misc below %s#%u and below its parent", hwloc_obj_type_string(o->type), o->logical_index); }
+    require_wf(c, t, "after the initial Misc insertions"); c.cls("start:misc-on-parent-and-child"); }
   run_history(c, t, known_exclusions());
   hwloc_topology_destroy(t);
 }
